@@ -13,7 +13,7 @@ Driver of the `files` family.
   canon param|model|opt <hex>                → ok <hex> | err   (model only: decode a file, sort the
                                                entries of its unordered maps by key, encode again)
 
-ws ::= 0 | 1      dev ::= n | e
+ws ::= 0 | 1      dev ::= n | e | m   (m: a second devices::Naive instance)
 T  ::= <dims csv>/<batch>:<float words, 8 hex digits each>
 P  ::= I | V;<dev>;<T value>;<gradient words>(;<hex name>=<T>)*      (statistics sorted by name on output)
 path ::= (.<hex name>)+
@@ -64,11 +64,13 @@ def showTensor (t : Tensor) : String := s!"{csv t.shape.dims}/{t.shape.batch}:{h
 def parseDev : String → Option Dev
   | "n" => some .naive
   | "e" => some .eigen
+  | "m" => some .naive2
   | _ => none
 
 def showDev : Dev → String
   | .naive => "n"
   | .eigen => "e"
+  | .naive2 => "m"
 
 def parseStat (s : String) : Option (Bytes × Tensor) :=
   match s.splitOn "=" with
